@@ -217,6 +217,15 @@ where
                 .name(format!("worker-{w}"))
                 .stack_size(64 << 20)
                 .spawn_scoped(scope, move || {
+                    struct Done<'a>(&'a AtomicU64, &'a AtomicBool);
+                    impl Drop for Done<'_> {
+                        fn drop(&mut self) {
+                            if self.0.fetch_sub(1, Ordering::Relaxed) == 1 {
+                                self.1.store(true, Ordering::Relaxed);
+                            }
+                        }
+                    }
+                    let _done_guard = Done(remaining, finished);
                     let strategy = make_strategy();
                     let mut acc = Acc::default();
                     let seed = mix64(mix64(engine_seed, hash_str(label)), w as u64);
@@ -261,7 +270,10 @@ where
                             return Ok(());
                         }
                         let mut st = CaseStats::default();
-                        let r = f(&v, &mut st);
+                        let r = match crate::engine::catch(|| f(&v, &mut st)) {
+                            Ok(r) => r,
+                            Err(p) => Err(Fail::Infra(format!("harness panic: {} at {}", p.message, p.location))),
+                        };
                         done.fetch_add(1, Ordering::Relaxed);
                         let mut acc = acc_cell.borrow_mut();
                         match r {
@@ -271,6 +283,9 @@ where
                                 Ok(())
                             }
                             Err(Fail::Discard(why)) => {
+                                if std::env::var("VERIF_DEBUG_DISCARDS").is_ok() && acc.discards.values().sum::<u64>() < 2 {
+                                    eprintln!("DISCARD: {why}\n  case: {}", serde_json::to_string(&v).unwrap_or_default());
+                                }
                                 acc.evaluations += 1;
                                 acc.discard(&why);
                                 Ok(())
@@ -318,9 +333,6 @@ where
                         }
                     }
                     accs.lock().unwrap().push(acc);
-                    if remaining.fetch_sub(1, Ordering::Relaxed) == 1 {
-                        finished.store(true, Ordering::Relaxed);
-                    }
                 })
                 .expect("spawn worker");
         }
